@@ -4,10 +4,12 @@ Import ListNotations.
 Open Scope Z_scope.
 Section P.
 Variable R : Type.
-Variable o : ROps R.
-Hypothesis Hring : ring_ok o.
-Let Hring2 : ring_theory (r0 o) (r1 o) (radd o) (rmul o) (rsub o) (ropp o) (@eq R) := Hring.
-Add Ring Rr : Hring2.
+Variables (e0 e1 : R) (add sub mul div : R -> R -> R) (opp : R -> R) (ltb : R -> R -> bool)
+          (tz : R -> Z) (oz : Z -> R) (und : Z -> R).
+Hypothesis Hring : ring_theory e0 e1 add mul sub opp (@eq R).
+Add Ring Rr : Hring.
+Let o : ROps R := {| r0 := e0; r1 := e1; radd := add; rsub := sub; rmul := mul; rdiv := div; ropp := opp;
+                     rltb := ltb; toZ := tz; ofZ := oz; rundef := und |}.
 
 Ltac state_eq :=
   lazymatch goal with
@@ -17,66 +19,66 @@ Ltac state_eq :=
   | |- AMem _ _ _ = AMem _ _ _ => apply f_equal3; state_eq
   | |- _ => first [reflexivity | ring]
   end.
-Ltac solve_instr I := prep I; run; state_eq.
+Ltac solve_instr I := prep I; vm_compute; state_eq.
 
-Goal instr_ok R o lane_any instr_prefetch. Proof. first [ solve [solve_instr instr_prefetch]; idtac "OK prefetch" | idtac "FAILED prefetch" ]. Abort.
-Goal instr_ok R o lane_any instr_mm256_setzero_ps. Proof. first [ solve [solve_instr instr_mm256_setzero_ps]; idtac "OK mm256_setzero_ps" | idtac "FAILED mm256_setzero_ps" ]. Abort.
-Goal instr_ok R o lane_any instr_mm256_setzero_pd. Proof. first [ solve [solve_instr instr_mm256_setzero_pd]; idtac "OK mm256_setzero_pd" | idtac "FAILED mm256_setzero_pd" ]. Abort.
-Goal instr_ok R o lane_any instr_mm256_loadu_ps. Proof. first [ solve [solve_instr instr_mm256_loadu_ps]; idtac "OK mm256_loadu_ps" | idtac "FAILED mm256_loadu_ps" ]. Abort.
-Goal instr_ok R o lane_any instr_mm256_loadu_pd. Proof. first [ solve [solve_instr instr_mm256_loadu_pd]; idtac "OK mm256_loadu_pd" | idtac "FAILED mm256_loadu_pd" ]. Abort.
-Goal instr_ok R o lane_any instr_mm256_storeu_ps. Proof. first [ solve [solve_instr instr_mm256_storeu_ps]; idtac "OK mm256_storeu_ps" | idtac "FAILED mm256_storeu_ps" ]. Abort.
-Goal instr_ok R o lane_any instr_mm256_storeu_pd. Proof. first [ solve [solve_instr instr_mm256_storeu_pd]; idtac "OK mm256_storeu_pd" | idtac "FAILED mm256_storeu_pd" ]. Abort.
-Goal instr_ok R o lane_any instr_mm256_fmadd_ps. Proof. first [ solve [solve_instr instr_mm256_fmadd_ps]; idtac "OK mm256_fmadd_ps" | idtac "FAILED mm256_fmadd_ps" ]. Abort.
-Goal instr_ok R o lane_any instr_mm256_fmadd_pd. Proof. first [ solve [solve_instr instr_mm256_fmadd_pd]; idtac "OK mm256_fmadd_pd" | idtac "FAILED mm256_fmadd_pd" ]. Abort.
-Goal instr_ok R o lane_any instr_mm256_broadcast_ss. Proof. first [ solve [solve_instr instr_mm256_broadcast_ss]; idtac "OK mm256_broadcast_ss" | idtac "FAILED mm256_broadcast_ss" ]. Abort.
-Goal instr_ok R o lane_any instr_mm256_broadcast_sd. Proof. first [ solve [solve_instr instr_mm256_broadcast_sd]; idtac "OK mm256_broadcast_sd" | idtac "FAILED mm256_broadcast_sd" ]. Abort.
-Goal instr_ok R o lane_any instr_mm256_broadcast_ss_scalar. Proof. first [ solve [solve_instr instr_mm256_broadcast_ss_scalar]; idtac "OK mm256_broadcast_ss_scalar" | idtac "FAILED mm256_broadcast_ss_scalar" ]. Abort.
-Goal instr_ok R o lane_any instr_mm256_broadcast_sd_scalar. Proof. first [ solve [solve_instr instr_mm256_broadcast_sd_scalar]; idtac "OK mm256_broadcast_sd_scalar" | idtac "FAILED mm256_broadcast_sd_scalar" ]. Abort.
-Goal instr_ok R o lane_any instr_mm256_fmadd_ps_broadcast. Proof. first [ solve [solve_instr instr_mm256_fmadd_ps_broadcast]; idtac "OK mm256_fmadd_ps_broadcast" | idtac "FAILED mm256_fmadd_ps_broadcast" ]. Abort.
-Goal instr_ok R o lane_any instr_mm256_mul_ps. Proof. first [ solve [solve_instr instr_mm256_mul_ps]; idtac "OK mm256_mul_ps" | idtac "FAILED mm256_mul_ps" ]. Abort.
-Goal instr_ok R o lane_any instr_mm256_mul_pd. Proof. first [ solve [solve_instr instr_mm256_mul_pd]; idtac "OK mm256_mul_pd" | idtac "FAILED mm256_mul_pd" ]. Abort.
-Goal instr_ok R o lane_any instr_mm256_div_ps. Proof. first [ solve [solve_instr instr_mm256_div_ps]; idtac "OK mm256_div_ps" | idtac "FAILED mm256_div_ps" ]. Abort.
-Goal instr_ok R o lane_any instr_mm256_div_pd. Proof. first [ solve [solve_instr instr_mm256_div_pd]; idtac "OK mm256_div_pd" | idtac "FAILED mm256_div_pd" ]. Abort.
-Goal instr_ok R o lane_any instr_mm256_add_ps. Proof. first [ solve [solve_instr instr_mm256_add_ps]; idtac "OK mm256_add_ps" | idtac "FAILED mm256_add_ps" ]. Abort.
-Goal instr_ok R o lane_any instr_mm256_add_pd. Proof. first [ solve [solve_instr instr_mm256_add_pd]; idtac "OK mm256_add_pd" | idtac "FAILED mm256_add_pd" ]. Abort.
-Goal instr_ok R o lane_any instr_mm256_sub_ps. Proof. first [ solve [solve_instr instr_mm256_sub_ps]; idtac "OK mm256_sub_ps" | idtac "FAILED mm256_sub_ps" ]. Abort.
-Goal instr_ok R o lane_any instr_mm256_sub_pd. Proof. first [ solve [solve_instr instr_mm256_sub_pd]; idtac "OK mm256_sub_pd" | idtac "FAILED mm256_sub_pd" ]. Abort.
-Goal instr_ok R o lane_any instr_mm256_loadu_si256. Proof. first [ solve [solve_instr instr_mm256_loadu_si256]; idtac "OK mm256_loadu_si256" | idtac "FAILED mm256_loadu_si256" ]. Abort.
-Goal instr_ok R o lane_any instr_mm256_storeu_si256. Proof. first [ solve [solve_instr instr_mm256_storeu_si256]; idtac "OK mm256_storeu_si256" | idtac "FAILED mm256_storeu_si256" ]. Abort.
-Goal instr_ok R o lane_any instr_mm256_add_epi16. Proof. first [ solve [solve_instr instr_mm256_add_epi16]; idtac "OK mm256_add_epi16" | idtac "FAILED mm256_add_epi16" ]. Abort.
-Goal instr_ok R o lane_any instr_mm512_setzero_ps. Proof. first [ solve [solve_instr instr_mm512_setzero_ps]; idtac "OK mm512_setzero_ps" | idtac "FAILED mm512_setzero_ps" ]. Abort.
-Goal instr_ok R o lane_any instr_mm512_add_ps. Proof. first [ solve [solve_instr instr_mm512_add_ps]; idtac "OK mm512_add_ps" | idtac "FAILED mm512_add_ps" ]. Abort.
-Goal instr_ok R o lane_any instr_mm512_mask_add_ps. Proof. first [ solve [solve_instr instr_mm512_mask_add_ps]; idtac "OK mm512_mask_add_ps" | idtac "FAILED mm512_mask_add_ps" ]. Abort.
-Goal instr_ok R o lane_any instr_mm512_loadu_ps. Proof. first [ solve [solve_instr instr_mm512_loadu_ps]; idtac "OK mm512_loadu_ps" | idtac "FAILED mm512_loadu_ps" ]. Abort.
-Goal instr_ok R o lane_any instr_mm512_storeu_ps. Proof. first [ solve [solve_instr instr_mm512_storeu_ps]; idtac "OK mm512_storeu_ps" | idtac "FAILED mm512_storeu_ps" ]. Abort.
-Goal instr_ok R o lane_any instr_mm512_maskz_loadu_ps. Proof. first [ solve [solve_instr instr_mm512_maskz_loadu_ps]; idtac "OK mm512_maskz_loadu_ps" | idtac "FAILED mm512_maskz_loadu_ps" ]. Abort.
-Goal instr_ok R o lane_any instr_mm512_mask_storeu_ps. Proof. first [ solve [solve_instr instr_mm512_mask_storeu_ps]; idtac "OK mm512_mask_storeu_ps" | idtac "FAILED mm512_mask_storeu_ps" ]. Abort.
-Goal instr_ok R o lane_any instr_mm512_fmadd_ps. Proof. first [ solve [solve_instr instr_mm512_fmadd_ps]; idtac "OK mm512_fmadd_ps" | idtac "FAILED mm512_fmadd_ps" ]. Abort.
-Goal instr_ok R o lane_any instr_mm512_mask_fmadd_ps. Proof. first [ solve [solve_instr instr_mm512_mask_fmadd_ps]; idtac "OK mm512_mask_fmadd_ps" | idtac "FAILED mm512_mask_fmadd_ps" ]. Abort.
-Goal instr_ok R o lane_any instr_mm512_relu_ps. Proof. first [ solve [solve_instr instr_mm512_relu_ps]; idtac "OK mm512_relu_ps" | idtac "FAILED mm512_relu_ps" ]. Abort.
-Goal instr_ok R o lane_any instr_mm512_mask_set1_ps. Proof. first [ solve [solve_instr instr_mm512_mask_set1_ps]; idtac "OK mm512_mask_set1_ps" | idtac "FAILED mm512_mask_set1_ps" ]. Abort.
-Goal instr_ok R o lane_any instr_mm512_set1_ps. Proof. first [ solve [solve_instr instr_mm512_set1_ps]; idtac "OK mm512_set1_ps" | idtac "FAILED mm512_set1_ps" ]. Abort.
-Goal instr_ok R o lane_any instr_avx2_set0_ps. Proof. first [ solve [solve_instr instr_avx2_set0_ps]; idtac "OK avx2_set0_ps" | idtac "FAILED avx2_set0_ps" ]. Abort.
-Goal instr_ok R o lane_any instr_avx2_fmadd_memu_ps. Proof. first [ solve [solve_instr instr_avx2_fmadd_memu_ps]; idtac "OK avx2_fmadd_memu_ps" | idtac "FAILED avx2_fmadd_memu_ps" ]. Abort.
-Goal instr_ok R o lane_any instr_avx2_select_ps. Proof. first [ solve [solve_instr instr_avx2_select_ps]; idtac "OK avx2_select_ps" | idtac "FAILED avx2_select_ps" ]. Abort.
-Goal instr_ok R o lane_any instr_avx2_select_pd. Proof. first [ solve [solve_instr instr_avx2_select_pd]; idtac "OK avx2_select_pd" | idtac "FAILED avx2_select_pd" ]. Abort.
-Goal instr_ok R o lane_any instr_avx2_assoc_reduce_add_ps. Proof. first [ solve [solve_instr instr_avx2_assoc_reduce_add_ps]; idtac "OK avx2_assoc_reduce_add_ps" | idtac "FAILED avx2_assoc_reduce_add_ps" ]. Abort.
-Goal instr_ok R o lane_any instr_avx2_assoc_reduce_add_pd. Proof. first [ solve [solve_instr instr_avx2_assoc_reduce_add_pd]; idtac "OK avx2_assoc_reduce_add_pd" | idtac "FAILED avx2_assoc_reduce_add_pd" ]. Abort.
-Goal instr_ok R o lane_any instr_avx2_sign_ps. Proof. first [ solve [solve_instr instr_avx2_sign_ps]; idtac "OK avx2_sign_ps" | idtac "FAILED avx2_sign_ps" ]. Abort.
-Goal instr_ok R o lane_any instr_avx2_sign_pd. Proof. first [ solve [solve_instr instr_avx2_sign_pd]; idtac "OK avx2_sign_pd" | idtac "FAILED avx2_sign_pd" ]. Abort.
-Goal instr_ok R o lane_any instr_avx2_reduce_add_wide_ps. Proof. first [ solve [solve_instr instr_avx2_reduce_add_wide_ps]; idtac "OK avx2_reduce_add_wide_ps" | idtac "FAILED avx2_reduce_add_wide_ps" ]. Abort.
-Goal instr_ok R o lane_any instr_avx2_reduce_add_wide_pd. Proof. first [ solve [solve_instr instr_avx2_reduce_add_wide_pd]; idtac "OK avx2_reduce_add_wide_pd" | idtac "FAILED avx2_reduce_add_wide_pd" ]. Abort.
-Goal instr_ok R o lane_any instr_avx2_reg_copy_ps. Proof. first [ solve [solve_instr instr_avx2_reg_copy_ps]; idtac "OK avx2_reg_copy_ps" | idtac "FAILED avx2_reg_copy_ps" ]. Abort.
-Goal instr_ok R o lane_any instr_avx2_reg_copy_pd. Proof. first [ solve [solve_instr instr_avx2_reg_copy_pd]; idtac "OK avx2_reg_copy_pd" | idtac "FAILED avx2_reg_copy_pd" ]. Abort.
-Goal instr_ok R o lane_any instr_avx2_mask_storeu_ps. Proof. first [ solve [solve_instr instr_avx2_mask_storeu_ps]; idtac "OK avx2_mask_storeu_ps" | idtac "FAILED avx2_mask_storeu_ps" ]. Abort.
-Goal instr_ok R o lane_any instr_avx2_ui16_divide_by_3. Proof. first [ solve [solve_instr instr_avx2_ui16_divide_by_3]; idtac "OK avx2_ui16_divide_by_3" | idtac "FAILED avx2_ui16_divide_by_3" ]. Abort.
-Goal instr_ok R o lane_any instr_mm256_prefix_load_ps. Proof. first [ solve [solve_instr instr_mm256_prefix_load_ps]; idtac "OK mm256_prefix_load_ps" | idtac "FAILED mm256_prefix_load_ps" ]. Abort.
-Goal instr_ok R o lane_any instr_mm256_prefix_store_ps. Proof. first [ solve [solve_instr instr_mm256_prefix_store_ps]; idtac "OK mm256_prefix_store_ps" | idtac "FAILED mm256_prefix_store_ps" ]. Abort.
-Goal instr_ok R o lane_any instr_mm256_prefix_add_ps. Proof. first [ solve [solve_instr instr_mm256_prefix_add_ps]; idtac "OK mm256_prefix_add_ps" | idtac "FAILED mm256_prefix_add_ps" ]. Abort.
-Goal instr_ok R o lane_any instr_mm256_prefix_mul_ps. Proof. first [ solve [solve_instr instr_mm256_prefix_mul_ps]; idtac "OK mm256_prefix_mul_ps" | idtac "FAILED mm256_prefix_mul_ps" ]. Abort.
-Goal instr_ok R o lane_any instr_mm256_prefix_sub_ps. Proof. first [ solve [solve_instr instr_mm256_prefix_sub_ps]; idtac "OK mm256_prefix_sub_ps" | idtac "FAILED mm256_prefix_sub_ps" ]. Abort.
-Goal instr_ok R o lane_any instr_mm256_prefix_div_ps. Proof. first [ solve [solve_instr instr_mm256_prefix_div_ps]; idtac "OK mm256_prefix_div_ps" | idtac "FAILED mm256_prefix_div_ps" ]. Abort.
-Goal instr_ok R o lane_any instr_mm256_prefix_broadcast_ss. Proof. first [ solve [solve_instr instr_mm256_prefix_broadcast_ss]; idtac "OK mm256_prefix_broadcast_ss" | idtac "FAILED mm256_prefix_broadcast_ss" ]. Abort.
-Goal instr_ok R o lane_any instr_avx2_convert_f32_lower_to_f64. Proof. first [ solve [solve_instr instr_avx2_convert_f32_lower_to_f64]; idtac "OK avx2_convert_f32_lower_to_f64" | idtac "FAILED avx2_convert_f32_lower_to_f64" ]. Abort.
-Goal instr_ok R o lane_any instr_avx2_convert_f32_upper_to_f64. Proof. first [ solve [solve_instr instr_avx2_convert_f32_upper_to_f64]; idtac "OK avx2_convert_f32_upper_to_f64" | idtac "FAILED avx2_convert_f32_upper_to_f64" ]. Abort.
+Goal instr_ok R o lane_any instr_prefetch. Proof. Time first [ solve [timeout 60 (solve_instr instr_prefetch)]; idtac "OK prefetch" | idtac "FAILED prefetch" ]. Abort.
+Goal instr_ok R o lane_any instr_mm256_setzero_ps. Proof. Time first [ solve [timeout 60 (solve_instr instr_mm256_setzero_ps)]; idtac "OK mm256_setzero_ps" | idtac "FAILED mm256_setzero_ps" ]. Abort.
+Goal instr_ok R o lane_any instr_mm256_setzero_pd. Proof. Time first [ solve [timeout 60 (solve_instr instr_mm256_setzero_pd)]; idtac "OK mm256_setzero_pd" | idtac "FAILED mm256_setzero_pd" ]. Abort.
+Goal instr_ok R o lane_any instr_mm256_loadu_ps. Proof. Time first [ solve [timeout 60 (solve_instr instr_mm256_loadu_ps)]; idtac "OK mm256_loadu_ps" | idtac "FAILED mm256_loadu_ps" ]. Abort.
+Goal instr_ok R o lane_any instr_mm256_loadu_pd. Proof. Time first [ solve [timeout 60 (solve_instr instr_mm256_loadu_pd)]; idtac "OK mm256_loadu_pd" | idtac "FAILED mm256_loadu_pd" ]. Abort.
+Goal instr_ok R o lane_any instr_mm256_storeu_ps. Proof. Time first [ solve [timeout 60 (solve_instr instr_mm256_storeu_ps)]; idtac "OK mm256_storeu_ps" | idtac "FAILED mm256_storeu_ps" ]. Abort.
+Goal instr_ok R o lane_any instr_mm256_storeu_pd. Proof. Time first [ solve [timeout 60 (solve_instr instr_mm256_storeu_pd)]; idtac "OK mm256_storeu_pd" | idtac "FAILED mm256_storeu_pd" ]. Abort.
+Goal instr_ok R o lane_any instr_mm256_fmadd_ps. Proof. Time first [ solve [timeout 60 (solve_instr instr_mm256_fmadd_ps)]; idtac "OK mm256_fmadd_ps" | idtac "FAILED mm256_fmadd_ps" ]. Abort.
+Goal instr_ok R o lane_any instr_mm256_fmadd_pd. Proof. Time first [ solve [timeout 60 (solve_instr instr_mm256_fmadd_pd)]; idtac "OK mm256_fmadd_pd" | idtac "FAILED mm256_fmadd_pd" ]. Abort.
+Goal instr_ok R o lane_any instr_mm256_broadcast_ss. Proof. Time first [ solve [timeout 60 (solve_instr instr_mm256_broadcast_ss)]; idtac "OK mm256_broadcast_ss" | idtac "FAILED mm256_broadcast_ss" ]. Abort.
+Goal instr_ok R o lane_any instr_mm256_broadcast_sd. Proof. Time first [ solve [timeout 60 (solve_instr instr_mm256_broadcast_sd)]; idtac "OK mm256_broadcast_sd" | idtac "FAILED mm256_broadcast_sd" ]. Abort.
+Goal instr_ok R o lane_any instr_mm256_broadcast_ss_scalar. Proof. Time first [ solve [timeout 60 (solve_instr instr_mm256_broadcast_ss_scalar)]; idtac "OK mm256_broadcast_ss_scalar" | idtac "FAILED mm256_broadcast_ss_scalar" ]. Abort.
+Goal instr_ok R o lane_any instr_mm256_broadcast_sd_scalar. Proof. Time first [ solve [timeout 60 (solve_instr instr_mm256_broadcast_sd_scalar)]; idtac "OK mm256_broadcast_sd_scalar" | idtac "FAILED mm256_broadcast_sd_scalar" ]. Abort.
+Goal instr_ok R o lane_any instr_mm256_fmadd_ps_broadcast. Proof. Time first [ solve [timeout 60 (solve_instr instr_mm256_fmadd_ps_broadcast)]; idtac "OK mm256_fmadd_ps_broadcast" | idtac "FAILED mm256_fmadd_ps_broadcast" ]. Abort.
+Goal instr_ok R o lane_any instr_mm256_mul_ps. Proof. Time first [ solve [timeout 60 (solve_instr instr_mm256_mul_ps)]; idtac "OK mm256_mul_ps" | idtac "FAILED mm256_mul_ps" ]. Abort.
+Goal instr_ok R o lane_any instr_mm256_mul_pd. Proof. Time first [ solve [timeout 60 (solve_instr instr_mm256_mul_pd)]; idtac "OK mm256_mul_pd" | idtac "FAILED mm256_mul_pd" ]. Abort.
+Goal instr_ok R o lane_any instr_mm256_div_ps. Proof. Time first [ solve [timeout 60 (solve_instr instr_mm256_div_ps)]; idtac "OK mm256_div_ps" | idtac "FAILED mm256_div_ps" ]. Abort.
+Goal instr_ok R o lane_any instr_mm256_div_pd. Proof. Time first [ solve [timeout 60 (solve_instr instr_mm256_div_pd)]; idtac "OK mm256_div_pd" | idtac "FAILED mm256_div_pd" ]. Abort.
+Goal instr_ok R o lane_any instr_mm256_add_ps. Proof. Time first [ solve [timeout 60 (solve_instr instr_mm256_add_ps)]; idtac "OK mm256_add_ps" | idtac "FAILED mm256_add_ps" ]. Abort.
+Goal instr_ok R o lane_any instr_mm256_add_pd. Proof. Time first [ solve [timeout 60 (solve_instr instr_mm256_add_pd)]; idtac "OK mm256_add_pd" | idtac "FAILED mm256_add_pd" ]. Abort.
+Goal instr_ok R o lane_any instr_mm256_sub_ps. Proof. Time first [ solve [timeout 60 (solve_instr instr_mm256_sub_ps)]; idtac "OK mm256_sub_ps" | idtac "FAILED mm256_sub_ps" ]. Abort.
+Goal instr_ok R o lane_any instr_mm256_sub_pd. Proof. Time first [ solve [timeout 60 (solve_instr instr_mm256_sub_pd)]; idtac "OK mm256_sub_pd" | idtac "FAILED mm256_sub_pd" ]. Abort.
+Goal instr_ok R o lane_any instr_mm256_loadu_si256. Proof. Time first [ solve [timeout 60 (solve_instr instr_mm256_loadu_si256)]; idtac "OK mm256_loadu_si256" | idtac "FAILED mm256_loadu_si256" ]. Abort.
+Goal instr_ok R o lane_any instr_mm256_storeu_si256. Proof. Time first [ solve [timeout 60 (solve_instr instr_mm256_storeu_si256)]; idtac "OK mm256_storeu_si256" | idtac "FAILED mm256_storeu_si256" ]. Abort.
+Goal instr_ok R o lane_any instr_mm256_add_epi16. Proof. Time first [ solve [timeout 60 (solve_instr instr_mm256_add_epi16)]; idtac "OK mm256_add_epi16" | idtac "FAILED mm256_add_epi16" ]. Abort.
+Goal instr_ok R o lane_any instr_mm512_setzero_ps. Proof. Time first [ solve [timeout 60 (solve_instr instr_mm512_setzero_ps)]; idtac "OK mm512_setzero_ps" | idtac "FAILED mm512_setzero_ps" ]. Abort.
+Goal instr_ok R o lane_any instr_mm512_add_ps. Proof. Time first [ solve [timeout 60 (solve_instr instr_mm512_add_ps)]; idtac "OK mm512_add_ps" | idtac "FAILED mm512_add_ps" ]. Abort.
+Goal instr_ok R o lane_any instr_mm512_mask_add_ps. Proof. Time first [ solve [timeout 60 (solve_instr instr_mm512_mask_add_ps)]; idtac "OK mm512_mask_add_ps" | idtac "FAILED mm512_mask_add_ps" ]. Abort.
+Goal instr_ok R o lane_any instr_mm512_loadu_ps. Proof. Time first [ solve [timeout 60 (solve_instr instr_mm512_loadu_ps)]; idtac "OK mm512_loadu_ps" | idtac "FAILED mm512_loadu_ps" ]. Abort.
+Goal instr_ok R o lane_any instr_mm512_storeu_ps. Proof. Time first [ solve [timeout 60 (solve_instr instr_mm512_storeu_ps)]; idtac "OK mm512_storeu_ps" | idtac "FAILED mm512_storeu_ps" ]. Abort.
+Goal instr_ok R o lane_any instr_mm512_maskz_loadu_ps. Proof. Time first [ solve [timeout 60 (solve_instr instr_mm512_maskz_loadu_ps)]; idtac "OK mm512_maskz_loadu_ps" | idtac "FAILED mm512_maskz_loadu_ps" ]. Abort.
+Goal instr_ok R o lane_any instr_mm512_mask_storeu_ps. Proof. Time first [ solve [timeout 60 (solve_instr instr_mm512_mask_storeu_ps)]; idtac "OK mm512_mask_storeu_ps" | idtac "FAILED mm512_mask_storeu_ps" ]. Abort.
+Goal instr_ok R o lane_any instr_mm512_fmadd_ps. Proof. Time first [ solve [timeout 60 (solve_instr instr_mm512_fmadd_ps)]; idtac "OK mm512_fmadd_ps" | idtac "FAILED mm512_fmadd_ps" ]. Abort.
+Goal instr_ok R o lane_any instr_mm512_mask_fmadd_ps. Proof. Time first [ solve [timeout 60 (solve_instr instr_mm512_mask_fmadd_ps)]; idtac "OK mm512_mask_fmadd_ps" | idtac "FAILED mm512_mask_fmadd_ps" ]. Abort.
+Goal instr_ok R o lane_any instr_mm512_relu_ps. Proof. Time first [ solve [timeout 60 (solve_instr instr_mm512_relu_ps)]; idtac "OK mm512_relu_ps" | idtac "FAILED mm512_relu_ps" ]. Abort.
+Goal instr_ok R o lane_any instr_mm512_mask_set1_ps. Proof. Time first [ solve [timeout 60 (solve_instr instr_mm512_mask_set1_ps)]; idtac "OK mm512_mask_set1_ps" | idtac "FAILED mm512_mask_set1_ps" ]. Abort.
+Goal instr_ok R o lane_any instr_mm512_set1_ps. Proof. Time first [ solve [timeout 60 (solve_instr instr_mm512_set1_ps)]; idtac "OK mm512_set1_ps" | idtac "FAILED mm512_set1_ps" ]. Abort.
+Goal instr_ok R o lane_any instr_avx2_set0_ps. Proof. Time first [ solve [timeout 60 (solve_instr instr_avx2_set0_ps)]; idtac "OK avx2_set0_ps" | idtac "FAILED avx2_set0_ps" ]. Abort.
+Goal instr_ok R o lane_any instr_avx2_fmadd_memu_ps. Proof. Time first [ solve [timeout 60 (solve_instr instr_avx2_fmadd_memu_ps)]; idtac "OK avx2_fmadd_memu_ps" | idtac "FAILED avx2_fmadd_memu_ps" ]. Abort.
+Goal instr_ok R o lane_any instr_avx2_select_ps. Proof. Time first [ solve [timeout 60 (solve_instr instr_avx2_select_ps)]; idtac "OK avx2_select_ps" | idtac "FAILED avx2_select_ps" ]. Abort.
+Goal instr_ok R o lane_any instr_avx2_select_pd. Proof. Time first [ solve [timeout 60 (solve_instr instr_avx2_select_pd)]; idtac "OK avx2_select_pd" | idtac "FAILED avx2_select_pd" ]. Abort.
+Goal instr_ok R o lane_any instr_avx2_assoc_reduce_add_ps. Proof. Time first [ solve [timeout 60 (solve_instr instr_avx2_assoc_reduce_add_ps)]; idtac "OK avx2_assoc_reduce_add_ps" | idtac "FAILED avx2_assoc_reduce_add_ps" ]. Abort.
+Goal instr_ok R o lane_any instr_avx2_assoc_reduce_add_pd. Proof. Time first [ solve [timeout 60 (solve_instr instr_avx2_assoc_reduce_add_pd)]; idtac "OK avx2_assoc_reduce_add_pd" | idtac "FAILED avx2_assoc_reduce_add_pd" ]. Abort.
+Goal instr_ok R o lane_any instr_avx2_sign_ps. Proof. Time first [ solve [timeout 60 (solve_instr instr_avx2_sign_ps)]; idtac "OK avx2_sign_ps" | idtac "FAILED avx2_sign_ps" ]. Abort.
+Goal instr_ok R o lane_any instr_avx2_sign_pd. Proof. Time first [ solve [timeout 60 (solve_instr instr_avx2_sign_pd)]; idtac "OK avx2_sign_pd" | idtac "FAILED avx2_sign_pd" ]. Abort.
+Goal instr_ok R o lane_any instr_avx2_reduce_add_wide_ps. Proof. Time first [ solve [timeout 60 (solve_instr instr_avx2_reduce_add_wide_ps)]; idtac "OK avx2_reduce_add_wide_ps" | idtac "FAILED avx2_reduce_add_wide_ps" ]. Abort.
+Goal instr_ok R o lane_any instr_avx2_reduce_add_wide_pd. Proof. Time first [ solve [timeout 60 (solve_instr instr_avx2_reduce_add_wide_pd)]; idtac "OK avx2_reduce_add_wide_pd" | idtac "FAILED avx2_reduce_add_wide_pd" ]. Abort.
+Goal instr_ok R o lane_any instr_avx2_reg_copy_ps. Proof. Time first [ solve [timeout 60 (solve_instr instr_avx2_reg_copy_ps)]; idtac "OK avx2_reg_copy_ps" | idtac "FAILED avx2_reg_copy_ps" ]. Abort.
+Goal instr_ok R o lane_any instr_avx2_reg_copy_pd. Proof. Time first [ solve [timeout 60 (solve_instr instr_avx2_reg_copy_pd)]; idtac "OK avx2_reg_copy_pd" | idtac "FAILED avx2_reg_copy_pd" ]. Abort.
+Goal instr_ok R o lane_any instr_avx2_mask_storeu_ps. Proof. Time first [ solve [timeout 60 (solve_instr instr_avx2_mask_storeu_ps)]; idtac "OK avx2_mask_storeu_ps" | idtac "FAILED avx2_mask_storeu_ps" ]. Abort.
+Goal instr_ok R o lane_any instr_avx2_ui16_divide_by_3. Proof. Time first [ solve [timeout 60 (solve_instr instr_avx2_ui16_divide_by_3)]; idtac "OK avx2_ui16_divide_by_3" | idtac "FAILED avx2_ui16_divide_by_3" ]. Abort.
+Goal instr_ok R o lane_any instr_mm256_prefix_load_ps. Proof. Time first [ solve [timeout 60 (solve_instr instr_mm256_prefix_load_ps)]; idtac "OK mm256_prefix_load_ps" | idtac "FAILED mm256_prefix_load_ps" ]. Abort.
+Goal instr_ok R o lane_any instr_mm256_prefix_store_ps. Proof. Time first [ solve [timeout 60 (solve_instr instr_mm256_prefix_store_ps)]; idtac "OK mm256_prefix_store_ps" | idtac "FAILED mm256_prefix_store_ps" ]. Abort.
+Goal instr_ok R o lane_any instr_mm256_prefix_add_ps. Proof. Time first [ solve [timeout 60 (solve_instr instr_mm256_prefix_add_ps)]; idtac "OK mm256_prefix_add_ps" | idtac "FAILED mm256_prefix_add_ps" ]. Abort.
+Goal instr_ok R o lane_any instr_mm256_prefix_mul_ps. Proof. Time first [ solve [timeout 60 (solve_instr instr_mm256_prefix_mul_ps)]; idtac "OK mm256_prefix_mul_ps" | idtac "FAILED mm256_prefix_mul_ps" ]. Abort.
+Goal instr_ok R o lane_any instr_mm256_prefix_sub_ps. Proof. Time first [ solve [timeout 60 (solve_instr instr_mm256_prefix_sub_ps)]; idtac "OK mm256_prefix_sub_ps" | idtac "FAILED mm256_prefix_sub_ps" ]. Abort.
+Goal instr_ok R o lane_any instr_mm256_prefix_div_ps. Proof. Time first [ solve [timeout 60 (solve_instr instr_mm256_prefix_div_ps)]; idtac "OK mm256_prefix_div_ps" | idtac "FAILED mm256_prefix_div_ps" ]. Abort.
+Goal instr_ok R o lane_any instr_mm256_prefix_broadcast_ss. Proof. Time first [ solve [timeout 60 (solve_instr instr_mm256_prefix_broadcast_ss)]; idtac "OK mm256_prefix_broadcast_ss" | idtac "FAILED mm256_prefix_broadcast_ss" ]. Abort.
+Goal instr_ok R o lane_any instr_avx2_convert_f32_lower_to_f64. Proof. Time first [ solve [timeout 60 (solve_instr instr_avx2_convert_f32_lower_to_f64)]; idtac "OK avx2_convert_f32_lower_to_f64" | idtac "FAILED avx2_convert_f32_lower_to_f64" ]. Abort.
+Goal instr_ok R o lane_any instr_avx2_convert_f32_upper_to_f64. Proof. Time first [ solve [timeout 60 (solve_instr instr_avx2_convert_f32_upper_to_f64)]; idtac "OK avx2_convert_f32_upper_to_f64" | idtac "FAILED avx2_convert_f32_upper_to_f64" ]. Abort.
 End P.
